@@ -14,6 +14,10 @@ ActsCommitFail == {a \in Only({"setenc", "inserth"}) : a.t = "f1"}
                   \cup {a \in Only({"createas"}) : a.u = "f2" /\ a.k = 0}
                   \cup {a \in Only({"select", "disk"}) : a.t \in {"f1", NewFile}}
                   \cup Only({"create", "commit", "rollback"})
+\* the temporary table and user-defined functions across transaction boundaries
+ActsTemp == {a \in Only({"insert1", "update", "delete", "replace", "select", "callins", "updatefail", "insertbad", "addcol", "dropcol"}) : a.t = TempT /\ a.k \in {0, 1}}
+            \cup {a \in Only({"insert1", "select", "callins"}) : a.t = "f1" /\ a.k = 1}
+            \cup Only({"callnoop", "commit", "rollback"})
 \* creating tables, failing and not, and what is left in the directory
 \* (a small family: a random walk has to take two or three particular steps in a row - create, a failing statement
 \* on the new table, a look at it - which it does not often enough among a hundred actions)
